@@ -201,10 +201,27 @@ ClauseEv ==
   /\ Chk("C03", TrueFact(Rec[l]), "C03_TrueFact", Rec[l])
   /\ wb' = [wb EXCEPT !.cls = Append(wb.cls, l)]
 
+\* requires clauses of the root that still need a decision: no candidate
+\* installed, some candidate not ruled out (the guard of LazyCdcl!Decide)
+OpenRootClauses ==
+  {i \in DOMAIN wb.cls :
+     /\ Rec[wb.cls[i]].ev = "clause" /\ Rec[wb.cls[i]].kind = "requires" /\ Rec[wb.cls[i]].a = 0
+     /\ LET pos == {y \in ClauseLits(i) : y[2] = 1} IN
+          /\ \A y \in pos : y \notin wb.A
+          /\ \E y \in pos : Neg(y) \notin wb.A}
+
 Assign ==
   /\ E("assign") /\ UNCHANGED <<ctx, bb, grp>>
   /\ LET x == <<Rec[l].v, IF Rec[l].val THEN 1 ELSE 0>> IN
      /\ Chk("C02", x \notin wb.A /\ Neg(x) \notin wb.A, "C02_Reassigned", x)
+     \* C08 (mechanism, from the canonical model): a decision is taken for a direct
+     \* requirement as long as one of them is undecided
+     /\ (IF Rec[l].tag = "decide" /\ RuleOn("C08")
+         THEN LET o == OpenRootClauses IN
+              /\ Chk("C08", o = {} \/ Rec[l].why \in o, "C08_ExplicitFirst", <<Rec[l].v, Rec[l].why, o>>)
+              /\ (IF o # {} /\ Cardinality({i \in DOMAIN wb.cls : Rec[wb.cls[i]].ev = "clause" /\ Rec[wb.cls[i]].kind = "requires" /\ Rec[wb.cls[i]].a # 0 /\ <<Rec[wb.cls[i]].a, 1>> \in wb.A}) > 0
+                   THEN Cover(<<"explicit_choice">>) ELSE TRUE)
+         ELSE TRUE)
      /\ (IF Rec[l].tag # "implied" THEN TRUE
          ELSE /\ Chk("C02", HasClause(Rec[l].why), "C02_ReasonLogged", Rec[l].why)
               /\ (IF HasClause(Rec[l].why)
